@@ -441,19 +441,23 @@ class Und:
         self.off = 0
         self.sched = list(sched)
         self.calls = 0
+        self.starved = False
         self.events = []      # (requested, returned length | 'fail')
 
     def _next(self, n):
         self.calls += 1
+        asked = n
         if self.sched:
             r = self.sched.pop(0)
             if r in ("F", "V"):
-                self.events.append((n, "fail"))
+                self.events.append((asked, "fail"))
                 raise (OSError if r == "F" else ValueError)("injected")
             n = min(n, r)
+            if r == 0 and asked > 0 and self.off < len(self.data):
+                self.starved = True          # returned nothing although data remained
         d = self.data[self.off:self.off + n]
         self.off += len(d)
-        self.events.append((n, len(d)))
+        self.events.append((asked, len(d)))
         return d
 
     def read(self, n=-1):
@@ -724,6 +728,165 @@ def wrapped_case(rng, chk, fails_out):
     chk.count("wrapped:" + ("text" if text else "buffered") + (":exn-" + exn if exn else ""))
 
 
+ACCESSORS = ["get_data", "get_data", "data", "stream.read", "form", "get_json", "parse_form_data"]
+
+
+def request_case(rng, chk, lines, impl_out, cases):
+    """One request through werkzeug.wrappers.Request (or formparser.parse_form_data) on an instrumented input.
+    The whole-body accessors must return exactly the declared body however the input fragments its reads, raise
+    ClientDisconnected when it ends or fails early, RequestEntityTooLarge over the maximum, and never consume more
+    than the declared length / the configured maximum."""
+    import json as _json
+    from urllib.parse import parse_qsl
+
+    from werkzeug.exceptions import BadRequest
+    from werkzeug.formparser import parse_form_data
+    from werkzeug.wrappers import Request
+    from werkzeug.wsgi import LimitedStream
+
+    acc = rng.choice(ACCESSORS)
+    n = rng.choice([0, 1, 2, 3, 5, 8, 13, 40, 200, 700])
+    if acc in ("form", "parse_form_data"):
+        body = "&".join(f"k{i}={'v' * rng.randint(0, 6)}" for i in range(max(1, n // 6))).encode()
+        ctype = "application/x-www-form-urlencoded"
+    elif acc == "get_json":
+        body = _json.dumps({"a": "x" * n, "b": [1, 2, 3]}).encode()
+        ctype = "application/json"
+    else:
+        body = bytes(rng.choice(ALPHA) for _ in range(n))
+        ctype = "application/octet-stream"
+    term = rng.random() < 0.3
+    # bytes of a following request sit behind the body only on an input the server does not terminate
+    trailer = b"" if term else rng.choice([b"", b"", b"GET /next HTTP/1.1\r\n"])
+    short = rng.random() < 0.25                      # the client sends less than it declares
+    sent = body[:rng.randint(0, max(0, len(body) - 1))] if short and body else body
+    data = sent + (trailer if not short else b"")
+    declared = rng.choice([len(body)] * 6 + [None, None, len(body) + 3])
+    mcl = rng.choice([None, None, None, len(body), len(body) + 10, max(0, len(body) - 1), 4])
+    sched = []
+    for _ in range(rng.choice([0, 0, 1, 2, 4, 8, 40])):
+        r = rng.random()
+        sched.append(0 if r < 0.04 else 1 if r < 0.3 else 2 if r < 0.45 else 7 if r < 0.6 else 100 if r < 0.8 else 771 if r < 0.92
+                     else "F" if r < 0.97 else "V")
+    if rng.random() < 0.3:                           # an input that never returns more than k bytes per call
+        k = rng.choice([1, 2, 7, 100])
+        sched = [k] * (len(data) // k + 3)
+    hasri = rng.random() < 0.5
+    und = (UndRI if hasri else Und)(data, sched)
+    env = {"wsgi.input": und, "REQUEST_METHOD": "POST", "wsgi.url_scheme": "http", "SERVER_NAME": "h", "SERVER_PORT": "80",
+           "CONTENT_TYPE": ctype}
+    if declared is not None:
+        env["CONTENT_LENGTH"] = str(declared)
+    if term:
+        env["wsgi.input_terminated"] = True
+    case = {"kind": "request", "accessor": acc, "data": data.hex(), "CONTENT_LENGTH": declared, "wsgi.input_terminated": term,
+            "max_content_length": mcl, "sched": [str(x) for x in sched], "has_readinto": hasri, "content_type": ctype}
+    req = None
+    exn = None
+    val = None
+
+    def call():
+        nonlocal req
+        if acc == "parse_form_data":
+            _, form, _ = parse_form_data(env, max_content_length=mcl)
+            return list(form.items(multi=True))
+        req = type("R", (Request,), {"max_content_length": mcl})(env)
+        if acc == "get_data":
+            return req.get_data()
+        if acc == "data":
+            return req.data
+        if acc == "stream.read":
+            return req.stream.read()
+        if acc == "form":
+            return list(req.form.items(multi=True))
+        return req.get_json()
+    try:
+        val = with_timeout(call, 5)
+    except ImplTimeout:
+        exn = "TIMEOUT"
+    except BadRequest as e:
+        exn = _exn_name(e)
+        if exn not in ("CD", "413"):
+            exn = "BadRequest"
+    except Exception as e:  # noqa: BLE001
+        exn = _exn_name(e)
+
+    def bad(key, what):
+        chk.fail(key, what, case)
+    # ---------------- the property
+    usable = declared                                  # plain decimal by construction
+    limit = None
+    is_max = False
+    if usable is not None and mcl is not None and usable > mcl:
+        want = "413-early"
+    elif term:
+        want = "raw" if mcl is None else "limited"
+        limit, is_max = mcl, True
+    elif usable is None:
+        want = "empty"
+    else:
+        want = "limited"
+        limit = usable
+    evs = und.events
+    trouble = any(ev[1] == "fail" or (ev[1] == 0 and ev[0] > 0 and not is_max) for ev in evs)
+    if exn == "TIMEOUT":
+        bad("hang", f"{acc} did not return")
+    elif exn is not None and exn not in ("CD", "413") and not (exn == "BadRequest" and acc == "get_json") and want != "raw":
+        bad("unrelated-exception", f"{acc} raised {exn}")   # (a raw terminated input is handed over unwrapped: its errors are its own)
+    if want == "413-early":
+        if exn != "413" or und.calls:
+            bad("too-large-not-refused", f"declared {usable} over the maximum {mcl}: {acc} gave {exn or val!r} after {und.calls} reads")
+    elif want == "empty":
+        if und.calls or (exn is not None and not (exn == "BadRequest" and acc == "get_json")):
+            bad("no-length-not-empty", f"no Content-Length, input not terminated: {acc} touched the input ({und.calls} reads) or raised {exn}")
+    elif want == "limited":
+        if und.off > limit:
+            bad("over-read", f"{acc} consumed {und.off} bytes, {'maximum' if is_max else 'declared length'} {limit}")
+        expect_bytes = data[:limit]
+        if exn == "413" and not (is_max and und.off >= limit):
+            bad("413-unjustified", f"RequestEntityTooLarge from {acc} below the maximum")
+        if exn == "CD" and not trouble:
+            bad("disconnect-unjustified", f"ClientDisconnected from {acc} although the input delivered everything asked for")
+        if exn != "CD" and trouble:
+            bad("disconnect-swallowed", f"{acc} returned {exn or 'a value'} although the input failed or ended before the "
+                                        f"{'maximum' if is_max else 'declared length'} ({und.off} of {limit} bytes consumed)")
+        if is_max and und.starved:
+            pass          # below a maximum an empty read is the end of the stream: nothing more can be demanded
+        elif exn is None and not trouble:
+            if is_max and len(data) > limit:
+                bad("max-unbounded-read-truncates", f"{acc} on a terminated input returned {limit} bytes of a {len(data)}-byte body "
+                                                    "without RequestEntityTooLarge")
+            elif und.off != len(expect_bytes) and not (is_max and any(ev[1] == 0 for ev in evs)):
+                bad("silent-truncation", f"{acc} consumed {und.off} of {len(expect_bytes)} body bytes and returned normally")
+            if isinstance(val, bytes) and not (is_max and len(data) > limit):
+                if val != expect_bytes[:und.off] or (val != expect_bytes and not (is_max and any(ev[1] == 0 for ev in evs))):
+                    bad("silent-truncation" if expect_bytes.startswith(val) else "not-prefix",
+                        f"{acc} returned {len(val)} bytes {val[:40]!r}, the client sent {len(expect_bytes)} bytes {expect_bytes[:40]!r}")
+            if acc in ("form", "parse_form_data") and und.off == len(expect_bytes) and len(data) <= (limit if is_max else len(data)):
+                ref = parse_qsl(expect_bytes.decode(), keep_blank_values=True)
+                if sorted(val) != sorted(ref):
+                    bad("silent-truncation", f"{acc} gave {val!r}, the body carries {ref!r}")
+        if exn == "BadRequest" and not trouble and not (is_max and und.starved):
+            try:
+                _json.loads(expect_bytes)
+                bad("silent-truncation", f"get_json could not parse what it read ({und.off} of {len(expect_bytes)} bytes consumed)")
+            except ValueError:
+                pass                                 # the client itself sent an incomplete document below the maximum
+    chk.case(("request", acc, data, declared, term, mcl, tuple(map(str, sched)), hasri), nontrivial=und.calls > 0,
+             sample={"case": {k: case[k] for k in ("accessor", "CONTENT_LENGTH", "wsgi.input_terminated", "max_content_length")},
+                     "impl": exn or repr(val)[:60]} if und.calls and rng.random() < 0.01 else None)
+    chk.count(f"request:{acc}:{want}" + (":" + exn if exn else ""))
+    # ---------------- the model: every whole-body accessor is one unbounded read of the chosen LimitedStream
+    st = None
+    if acc != "parse_form_data" and req is not None and "stream" in req.__dict__:
+        st = req.__dict__["stream"]
+    # (the urlencoded form parser reads in sized pieces up to max_form_memory_size + 1: oracles only)
+    if want == "limited" and isinstance(st, LimitedStream) and exn != "TIMEOUT" and acc != "form":
+        lines.append(ls_line(data, st.limit, st._limit_is_max, hasri, sched, ["a"]))
+        impl_out.append(f"R{'x:' + exn if exn in ('CD', '413') else 'ok'}@{st._pos}/{und.off}/{und.calls}")
+        cases.append(case)
+
+
 CL_VALUES = [None, "0", "5", "3", "12", " 7 ", "\t4\n", "-3", "-0", "abc", "", " ", "１２", "١", "+5", "1_0", "5.0",
              "0x10", "4 4", "007", "99999999999999999999", " 5 ", "5\x1c", "--5", "5-", "\x00", "1e3"]
 TE_VALUES = [None, "chunked", "Chunked", "gzip", "chunked, gzip", " chunked", ""]
@@ -935,6 +1098,11 @@ def run(chk: Check) -> None:
         chk.case(("e2e", data, limit, is_max, hasri, tuple(map(str, sched)), tuple(ops), mcl, term, env.get("CONTENT_LENGTH")),
                  nontrivial=st is not None)
 
+    # ---- the Request wrapper end to end: get_data / data / stream.read / form / get_json / parse_form_data over
+    #      instrumented raw inputs (short reads, early end, faults) x CONTENT_LENGTH / wsgi.input_terminated / max_content_length
+    for _ in range(6000 if quick else 80000):
+        request_case(rng, chk, lines, impl_out, cases)
+
     # ---------------------------------------------------------------- model side
     exe = chk.build_modelrun("C09")
     if exe:
@@ -942,6 +1110,9 @@ def run(chk: Check) -> None:
         if res is not None:
             mism = 0
             for ln, a, b, c in zip(lines, impl_out, res, cases):
+                if a.startswith("R"):
+                    a = a[1:]
+                    b = ("ok" if b.startswith("b:") else b.split("@")[0]) + "@" + b.split("@")[1]
                 if a != b:
                     mism += 1
                     if mism <= 5:
@@ -970,6 +1141,33 @@ def replay(rep) -> int:
         for k, w in fails:
             print(f"FAILS [{k}] {w}")
         return 1 if fails else 0
+    if inp.get("kind") == "request":
+        from werkzeug.formparser import parse_form_data
+        from werkzeug.wrappers import Request
+        data = bytes.fromhex(inp["data"])
+        sc = [x if x in ("F", "V") else int(x) for x in inp["sched"]]
+        und = (UndRI if inp["has_readinto"] else Und)(data, sc)
+        env = {"wsgi.input": und, "REQUEST_METHOD": "POST", "wsgi.url_scheme": "http", "SERVER_NAME": "h", "SERVER_PORT": "80",
+               "CONTENT_TYPE": inp["content_type"]}
+        if inp["CONTENT_LENGTH"] is not None:
+            env["CONTENT_LENGTH"] = str(inp["CONTENT_LENGTH"])
+        if inp["wsgi.input_terminated"]:
+            env["wsgi.input_terminated"] = True
+        print(f"input of {len(data)} bytes {data[:60]!r}, schedule {sc[:12]}{'...' if len(sc) > 12 else ''}, "
+              f"CONTENT_LENGTH={inp['CONTENT_LENGTH']}, terminated={inp['wsgi.input_terminated']}, max_content_length={inp['max_content_length']}")
+        try:
+            if inp["accessor"] == "parse_form_data":
+                out = list(parse_form_data(env, max_content_length=inp["max_content_length"])[1].items(multi=True))
+            else:
+                req = type("R", (Request,), {"max_content_length": inp["max_content_length"]})(env)
+                a = inp["accessor"]
+                out = (req.get_data() if a == "get_data" else req.data if a == "data" else req.stream.read() if a == "stream.read"
+                       else list(req.form.items(multi=True)) if a == "form" else req.get_json())
+            print(f"{inp['accessor']} ->", repr(out)[:200])
+        except Exception as e:  # noqa: BLE001
+            print(f"{inp['accessor']} raised {type(e).__name__}")
+        print(f"consumed {und.off} bytes in {und.calls} reads")
+        return 0
     if inp.get("kind") == "gis":
         fails = []
         term = inp["wsgi.input_terminated"]
@@ -1010,6 +1208,8 @@ def main(chk: Check) -> None:
                     "length <= 2 over {0,1,fail}, every single and pair of 6 operations) + random cases (data 0..10 bytes incl. LF, limits "
                     "around the data length, schedules with short reads / zero reads / OSError / ValueError, 1..5 operations of readinto "
                     "(bytearray, memoryview) / read(n) / read() / exhaust / readline / readlines) compared result-by-result incl. _pos, bytes "
-                    "consumed and number of underlying calls; buffering wrappers with oracles; get_input_stream: full product of "
+                    "consumed and number of underlying calls; buffering wrappers with oracles; Request.get_data / data / stream.read / form / "
+                    "get_json and parse_form_data end to end over the instrumented inputs (fragmenting, short, failing) x CONTENT_LENGTH x "
+                    "wsgi.input_terminated x max_content_length; get_input_stream: full product of "
                     "CONTENT_LENGTH x Transfer-Encoding x wsgi.input_terminated x max_content_length x safe_fallback classes + random "
                     "length texts; Request.stream end to end. Non-trivial: the underlying stream was called at least once; distinct by hash.")
